@@ -343,6 +343,11 @@ M("C11", "natom-from-columns", "iodata/iodata.py", r"            natom = len\(se
 M("C12", "beta-setter-slices-from-end", "iodata/orbitals.py", r"(    @occsb\.setter(?:.|\n)*?)self\.occs\[self\.norba :\] = occsb", "\\1self.occs[-self.norbb :] = occsb", "C12-R4")
 M("C12", "nbasis-generalized-not-halved", "iodata/orbitals.py", r"            return self\.coeffs\.shape\[0\] // 2", "            return self.coeffs.shape[0]", "C12-R2")
 
+M("C09", "xyz-writer-rounds-in-place", F + "xyz.py", r"(def dump_one\(f: TextIO, data: IOData, atom_columns=None\):\n    \"\"\"[^\n]*\"\"\"\n)", "\\1    data.atcoords.round(6, out=data.atcoords)\n", "C09-R1")
+M("C09", "xyz-writer-scales-a-view", F + "xyz.py", r"(def dump_one\(f: TextIO, data: IOData, atom_columns=None\):\n    \"\"\"[^\n]*\"\"\"\n)", "\\1    _c = np.array(data.atcoords, copy=False)\n    _c *= 1.0\n", "C09-R1")
+
+M("C16", "selector-caches-on-function-object", "iodata/api.py", r"(def _select_format_module\((?:.|\n)*?\n    \"\"\"\n)", "\\1    _select_format_module.last = filename\n", "C16-R1")
+
 # ----------------------------------------------------------------------------- additions (fourth round, batch 6)
 M("C07", "extxyz-title-parsed-after-putback", F + "extxyz.py", r"    atom_columns, title_data = _parse_title\(title_line, lit\)\n    lit\.back\(title_line\)\n    lit\.back\(atom_line\)\n", "    lit.back(title_line)\n    lit.back(atom_line)\n    atom_columns, title_data = _parse_title(title_line, lit)\n", "C07-R8")
 M("C07", "mol2-atom-loop-skips-blank-lines", F + "mol2.py", r"(    for i in range\(natoms\):\n        words = next\(lit\)\.split\(\)\n)", "\\1        if not words:\n            continue\n", "C07-R9")
